@@ -69,6 +69,16 @@ def e1_programs(tier):
         yield ("ct3:%s" % "|".join(tys), "contract", contract_of([m]), [m])
 
 
+def generic_programs(tier):
+    """(5) generic contracts and interfaces with associated types (the parameter placements of C15's grammar, one and two
+    parameters, no where-clause variants): their message types, too, have exactly one variant per annotated method."""
+    from . import c15
+    for pid, where, obj, params, used, wheres in c15.programs(tier):
+        if pid.startswith("g3:") or pid.startswith("i3:") or (where == "contract" and not pid.endswith(":none")):
+            continue
+        yield ("gen:" + pid, where, obj, [m for m in obj.methods])
+
+
 def type_name_for(kind, where):
     return model.MSG_NAME[kind] if where == "contract" else "If" + model.MSG_NAME[kind]
 
@@ -120,6 +130,11 @@ def check_structure(res, pid, where, o, expected, src):
                 bad("%s is not an enum" % tname)
                 continue
             vs = [v for v in t["variants"] if v["name"] != "_Phantom"]
+            for v in t["variants"]:
+                # the marker variant of generic message types belongs to no method: it must be invisible on the wire
+                if v["name"] == "_Phantom" and not any(norm(a) == "#[serde(skip)]" for a in v["attrs"]):
+                    bad("%s has a variant `_Phantom` that is not skipped by serde: the type accepts the name `%s`, which belongs to no annotated method" % (
+                        tname, serde_snake("_Phantom")), cls="extra_variant")
             if len(vs) != len(ms):
                 bad("%s has %d variants for %d annotated methods" % (tname, len(vs), len(ms)))
                 continue
@@ -144,7 +159,7 @@ def check_structure(res, pid, where, o, expected, src):
 
 
 def run_e1(res, tier):
-    progs = list(e1_programs(tier))
+    progs = list(e1_programs(tier)) + list(generic_programs(tier))
     recs, meta = [], {}
     for pid, where, obj, expected in progs:
         r = model.e1_contract_record(pid, obj, want="items") if where == "contract" else model.e1_interface_record(pid, obj, want="items")
